@@ -374,6 +374,53 @@ func runC13(c *core.Ctx) {
 			c13Walk(cs, e.B, t, "own")
 		}
 	})
+	// (1a') the type's own decoder handed a buffer that goes on after the packet (other frames, the
+	// rest of a receive buffer), up to and beyond 64 KiB in total: the packet ends where its length
+	// field says, whatever the length of the buffer
+	c.Section("trailing-octets", c.N(6000, 300000), func(cs *core.Case) {
+		r := cs.R
+		m := gen.TWCCModelGen(r, gen.Opts{Small: r.Chance(3, 4), NoBig: true})
+		chunks := m.Chunks(r, gen.ChunkOpts{OvershootRun: true})
+		e, err := ref.Encode(m.Value(chunks), ref.RFC)
+		if err != nil {
+			return
+		}
+		total := r.Pick(len(e.B)+1, len(e.B)+4, len(e.B)+1+r.Intn(64), 65535, 65536, 65537, 65536+r.Intn(len(e.B)+40), 65536+r.Intn(400), 131072+r.Intn(400), 262144)
+		if total <= len(e.B) {
+			total = len(e.B) + 4
+		}
+		buf := make([]byte, total)
+		copy(buf, e.B)
+		if r.Bool() {
+			copy(buf[len(e.B):], r.Bytes(min(total-len(e.B), 512)))
+		}
+		got, derr, pan := gUnmarshalOwn(gen.TWCC, buf)
+		cs.Eval(1)
+		cs.Distinct(core.Digest(e.B, []byte{byte(total >> 16), byte(total >> 8), byte(total)}))
+		cs.Count("trailing-octets")
+		det := func(extra core.W) core.W {
+			d := core.W{"packet_hex": mon.Hex(e.B, 256), "packet_len": len(e.B), "buffer_len": total, "model_status": fmt.Sprint(m.Status), "chunking": vdump(chunks)}
+			for kk, vv := range extra {
+				d[kk] = vv
+			}
+			return d
+		}
+		if pan != "" {
+			cs.Fail("panic/Unmarshal", det(core.W{"panic": pan}))
+			return
+		}
+		if derr != nil {
+			cs.Count("trailing-octets/rejected")
+			return
+		}
+		t := got.(*rtcp.TransportLayerCC)
+		proj, perr := projectTWCC(t)
+		if perr != nil || !mon.SemEqual(proj, modelProjection(m)) {
+			cs.Fail("trailing/differs", det(core.W{"problem": fmt.Sprint(perr), "decoded": vdump(t)}))
+			return
+		}
+		c13Walk(cs, e.B, t, "own+trailing")
+	})
 	// (1b') feedback of 64 KiB and more (tens of thousands of received packets with their deltas): the
 	// unchanged library refuses every such packet (its length arithmetic is 16 bits wide), which is
 	// allowed; a library that accepts one must decode it like any other
